@@ -140,7 +140,7 @@ def run(tier):
     rnd = random.Random(common.seed())
     maxd = 2 if tier == "quick" else 3
     types = rg.chains(maxd)
-    for _ in range(200 if tier == "quick" else 2000):
+    for _ in range(200 if tier == "quick" else 12000):
         types.append(rg.random_type(rnd, rnd.randint(2, 5)))
     seen = set()
     uniq = []
@@ -160,7 +160,7 @@ def run(tier):
         return all(no_unit(x) for x in t[1:])
     cands = [t for t in uniq if serde_oracle.compilable(t) and no_unit(t) and not rg.has_ref(t) and rg.named_in(t) <= {"Named"}]
     rnd.shuffle(cands)
-    sample = cands[: (150 if tier == "quick" else 800)]
+    sample = cands[: (150 if tier == "quick" else 1500)]
     body = [serde_oracle.SAMPLE_PRELUDE, "fn main() {\n"] + ["    show::<%s>(%d);\n" % (rg.rust(t), i) for i, t in enumerate(sample)] + ["}\n"]
     values = {}
     for line in serde_oracle.run_serde("".join(body)).splitlines():
